@@ -1,9 +1,11 @@
 import CJ.Drv.Loop
 import CJ.Drv.HalfPipe
-/-! Driver for C05: the relay model (`halfPipe`, `Proxy`). -/
+import CJ.Drv.RelayClock
+/-! Driver for C05: the relay model (`halfPipe`, `Proxy`) and the relay's deadlines on a virtual clock. -/
 open CJ.Drv
 
 def main : IO Unit := runDriver fun
   | "halfpipe" :: args => HalfPipe.handle args
   | "proxy" :: args => HalfPipe.handleProxy args
+  | "relayclock" :: args => RelayClock.handle args
   | _ => none
